@@ -7,6 +7,8 @@ From Goit Require Import Index World Repo Inv SnapshotFacts.
 From Goit Require Import Bridge.
 From Goit Require Import IndexFacts DiffFacts ExactFacts BranchFacts RestoreFacts.
 From Goit Require TreeUniqueFacts.
+From Goit Require Import Commit Reflog ResetFacts.
+From Goit Require OutputFacts.
 Import ListNotations.
 Local Open Scope N_scope.
 
@@ -119,3 +121,43 @@ Theorem C05_head_tree_reads_back : forall w c ns,
 Proof. exact TreeUniqueFacts.reachable_head_nodes_u. Qed.
 Print Assumptions C05_stored_trees_read_back_unique.
 Print Assumptions C05_head_tree_reads_back.
+
+(* the two command outputs the statement names.
+   `ls-files` (with -s: id in hex, a blank, the path) prints the staging area, entry by entry *)
+Theorem C05_ls_files_prints_the_staging_area : forall e w c s,
+  w_inited w = true -> ctx_of w = Some c ->
+  step (ACmd e (CLsFiles s)) w = (w, OOk (map (OutputFacts.ls_line s) (idx_of w)), []).
+Proof. exact OutputFacts.ls_files_spec. Qed.
+
+(* "reset --mixed to it makes ls-files -s equal that set": a commit made in a reachable repository,
+   ANY later history h, then reset --mixed to the journal position that names that commit, then
+   ls-files -s: exactly the entries that were staged when the commit was made *)
+Theorem C05_commit_history_reset_ls_files : forall e0 msg w0 w1 out0 tr0 h e n hl rs r w' out tr cid,
+  Reachable w0 ->
+  step (ACmd e0 (CCommit msg)) w0 = (w1, OOk out0, tr0) ->
+  am_get (w_refs w1) (w_head w1) = Some cid ->
+  w_coll (run h w1) = false -> SmallStore (w_objs (run h w1)) ->
+  (n <= 9223372036854775807)%N ->
+  w_hlog (run h w1) = Some hl -> parse_reflog hl = Some rs ->
+  get_record rs (N.to_nat n) = Some r -> r_id r = Some cid ->
+  step (ACmd e (CReset false true false [head_at n])) (run h w1) = (w', OOk out, tr) ->
+  forall e2,
+    step (ACmd e2 (CLsFiles true)) w' =
+    (w', OOk (map (fun en => hex (e_id en) ++ [c_sp] ++ e_path en) (idx_of w0)), []).
+Proof. exact OutputFacts.commit_reset_position_ls_files. Qed.
+
+(* "cat-file -p of any of its trees lists exactly that tree's direct children with the right kind,
+   id and complete name": for every stored commit of a reachable repository, its root tree and every
+   directory below it at any depth, addressed by the id its parent's line prints *)
+Theorem C05_cat_file_lists_direct_children : forall w c id cm,
+  Reachable w -> w_coll w = false -> SmallStore (w_objs w) -> ctx_of w = Some c ->
+  get_commit (w_objs w) id = Some cm ->
+  exists its,
+    snapshot (w_objs w) id = Some (flat_items [] its) /\ Forall wf_item its /\
+    (forall e, step (ACmd e (CCatFile false true [hex (c_tree cm)])) w = (w, OOk (map OutputFacts.item_line its), [])) /\
+    (forall sub e, OutputFacts.dir_below its sub ->
+       step (ACmd e (CCatFile false true [hex (obj_id KTree (ser sub))])) w = (w, OOk (map OutputFacts.item_line sub), [])).
+Proof. exact OutputFacts.cat_file_tree_spec'. Qed.
+Print Assumptions C05_ls_files_prints_the_staging_area.
+Print Assumptions C05_commit_history_reset_ls_files.
+Print Assumptions C05_cat_file_lists_direct_children.
